@@ -29,7 +29,7 @@ def expected_pages(tr):
                    for c in children)
 
     def rec(children, rel, top):
-        processed = (not auto) or has_cmake(children, rel)
+        processed = (not auto) or has_cmake(children, rel) or bool(case["recursive"])   # (-r: repair of F23)
         if processed:
             for c in children:
                 if c["kind"] == "f" and ct.is_cmake(c["name"]) and (rel + (c["name"],), False) not in tbl:
